@@ -732,9 +732,11 @@ def oracle_strict(ctx, case, obs, rep):
         V("Actuator.run:bar-ran-although-strict-market-has-no-row", f"before_bar ran at {befores[-1]}; market {mi} has no row at {tb}")
     if obs["status_ts"] != bars[:len(obs["status_ts"])] or (obs["status_ts"] and obs["status_ts"][-1] >= tb):
         V("Actuator.account_status:after-strict-failure", f"account rows {obs['status_ts'][-3:]} after the run ended at {tb}")
-    # the markets registered before the failing one were refreshed on that bar, the failing one and those behind it were not
+    # the markets registered before the failing one were refreshed on that bar, the failing one and those behind it were not — if the run got
+    # that far (every bar before it has its account row) and the price frame has a row for the bar (the price row is looked up first)
+    reached = obs["status_ts"] == bars[:bars.index(tb)] and tb in set(expected_index(case["prices"], 60 * case["interval"], resampled(case["istr"])))
     last_sets = [e[2] for e in ev if e[0] == "set" and e[1] == tb and e[3] == (0 if tb == bars[0] else 1)]
-    if last_sets != list(range(mi)):
+    if reached and last_sets != list(range(mi)):
         V("Actuator.run:refresh-at-strict-failure", f"markets refreshed on the failing bar {tb}: {last_sets}, expected {list(range(mi))}")
 
 
